@@ -3168,7 +3168,11 @@ Section Cover.
       covered_op w (Rename p q)                            (* directory of the tree over an empty directory of the tree *)
   | co_rename_dir_plain p q ep : npath p -> npath q -> flookup p (w_fs w) = Some ep -> f_dir ep = true ->
       p <> root -> q <> root -> under p root = false -> (c_recursive C = false \/ (~ scope p /\ ~ scope q)) ->
-      covered_op w (Rename p q).              (* directory, non-recursive watch or entirely outside the tree *)
+      covered_op w (Rename p q)               (* directory, non-recursive watch or entirely outside the tree *)
+  | co_rename_dir_in_over p q ep v : npath p -> npath q -> c_recursive C = true -> c_fix_movein C = true ->
+      flookup p (w_fs w) = Some ep -> f_dir ep = true -> ~ scope p -> under p root = false -> scope q -> q <> root ->
+      flookup q (w_fs w) = Some v -> f_dir v = true ->
+      covered_op w (Rename p q).              (* directory, moved in from outside over an empty directory of the tree *)
 
   Lemma safe_generic w k r o w' r' k' evs : k_queue k = [] ->
     match o with
@@ -3190,7 +3194,7 @@ Section Cover.
     intros (M1 & M2 & M3) S Ho Ha k1. assert (Hq := rs_queue _ _ _ S). assert (W := rs_wf _ _ _ S).
     destruct Ho as [o Hqo Hn|p Hn|p Hn Hr|p q ep Np Nq El De Ed|p q ep Np Nq Hrec El De Sp Hpr Sq Elq
                     |p q ep Np Nq Hrec Hfix El De Sp Hpr Sq Elq|p q ep v Np Nq Hrec El De Sp Hpr Sq Hqr Elq Dv
-                    |p q ep Np Nq El De Hpr Hqr Hupr Hpl].
+                    |p q ep Np Nq El De Hpr Hqr Hupr Hpl|p q ep v Np Nq Hrec Hfix El De Sp Hpr Sq Hqr Elq Dv].
     - destruct (step_quiet w k r o w' S Hn Hqo Ha) as (evs & H1 & _ & H2). eexists _, _, _. split; [exact H1|]. split; [exact H2|].
       eapply (safe_generic w k r o w' _ _ _ Hq); [|exact H1]. destruct o; try contradiction; exact I.
     - destruct (step_mkdir w k r p w' S Hn Ha M1) as (r' & k' & evs & H1 & H2 & _). eexists _, _, _. split; [exact H1|]. split; [exact H2|].
@@ -3212,6 +3216,7 @@ Section Cover.
       eexists _, _, _. split; [exact H1|]. split; [exact H2|]. eapply (safe_generic w k r (Rename p q) w' _ _ _ Hq); [|exact H1].
       right. apply (ino_unwatched w k r q W (rs_inv _ _ _ S)).
       destruct Hpl as [Hrec|[_ Hs]]; [|exact Hs]. unfold scope. now rewrite Hrec.
+    - eapply step_rename_dir_in_over; eassumption.
   Qed.
 
   Theorem cover_step w k r o w' : mask_ok -> RSync w k r -> covered_op w o -> apply_op w o = Some w' ->
